@@ -833,3 +833,31 @@ Proof.
     + unfold identity_of. rewrite Hg. cbn [bind]. destruct (mk_definition_fields _ _ _ _ Hg) as [Df _]. rewrite <- Df. assumption.
     + apply IH. assumption.
 Qed.
+
+(* INFERENCE 4 for a target relative to the working directory: it needs that the walk of inference 3 finds nothing
+   (this is the hypothesis that the open finding F16 violates) *)
+Theorem from_first_in_bare_name_relative fs cwd tc roots pre n post b :
+  tc = pre ++ n :: post ++ [b] ->
+  roots <> [] ->
+  exists_ fs (cwd ++ tc) = true ->
+  (forall r, In r roots -> covers cwd (cwd ++ tc) r = false) ->
+  strategy3 fs cwd (P false tc) roots = None ->
+  str_in n (bare_names roots) = true ->
+  (forall x, In x pre -> str_in x (bare_names roots) = false) ->
+  from_first_in fs cwd roots (P false tc) = mk_definition fs (cwd ++ tc) (cwd ++ pre ++ [n]).
+Proof.
+  intros Ef NE EX NC S3 Hn Hpre. unfold from_first_in. rewrite (infer_root_nonempty fs cwd (P false tc) roots NE).
+  cbv zeta. cbn [is_abs orb resolve comps]. rewrite EX.
+  destruct (strategy2 cwd (P false tc) (Some (cwd ++ tc)) roots) as [p|] eqn:S2.
+  { exfalso. destruct (strategy2_none_inv _ _ _ _ _ S2) as (r & I & [(x & X)|(f' & F' & X)]).
+    - pose proof (relative_to_covers cwd _ _ _ X) as C. cbn [resolve is_abs comps] in C. rewrite (NC r I) in C. discriminate.
+    - inversion F'; subst f'. specialize (NC r I). unfold covers in NC. congruence. }
+  rewrite S3.
+  assert (removelast tc = pre ++ n :: post) as RL.
+  { rewrite Ef. replace (pre ++ n :: post ++ [b]) with ((pre ++ n :: post) ++ [b]) by (rewrite <- app_assoc; reflexivity).
+    apply removelast_app_single. }
+  rewrite RL, (strategy4_first _ false [] pre n post Hn Hpre). cbn [app bind is_abs orb resolve comps].
+  assert (is_prefix (cwd ++ pre ++ [n]) (cwd ++ tc) = true) as PF.
+  { apply is_prefix_app. apply is_prefix_spec. exists (post ++ [b]). rewrite Ef, <- app_assoc. reflexivity. }
+  rewrite PF. reflexivity.
+Qed.
